@@ -40,7 +40,11 @@ JudgeMake(e) ==
 
 JudgeCtor(e) ==
   LET ok == IF e.kind = 1 THEN Valid1(e.f) ELSE Valid2(e.f)
-      open == (e.kind = 1 /\ VersionClass1(e.f.version) = "open") \/ Padded(e.f.ofxheader) \/ Padded(e.f.version) IN
+      \* a CONSTRUCTOR argument that is not plain digits but that Python's int() reads as a number ("1_02", "+102", " 100") is
+      \* not header text: left open (the same value in a FILE is refused, see RefParse)
+      lenient(v) == v # <<>> /\ ~AllDigits(v) /\ \A i \in 1..Len(v) : IsDigit(v[i]) \/ v[i] \in {95, 43, 45, 32, 9}
+      open == (e.kind = 1 /\ VersionClass1(e.f.version) = "open") \/ Padded(e.f.ofxheader) \/ Padded(e.f.version)
+              \/ lenient(e.f.version) \/ lenient(e.f.ofxheader) IN
   IF open THEN <<>>
   ELSE IF ok THEN << <<"ctor-accepts", e.out.st = "ok">> >>
   ELSE << <<"ctor-refuses", e.out.st = "err">>,
